@@ -210,6 +210,15 @@ pub fn check_core(prop: &str, tier: &str) -> ! {
 		// a raw operation that panics (and the acquisition of a lock such a panic killed) must not make the library
 		// release what the caller does not hold
 		crate::faults::small_fault_sweep(&mut rep, "C05");
+		// a thread that waits for a lock it holds itself: it held nothing when the call started (C03), so a hold taken by
+		// an earlier step of the same call (a retry round, a rollback) was never released
+		let moved: Vec<Viol> = rep.xrefs.iter().filter(|v| v.prop == "C01" && v.key.starts_with("self-wait|")).cloned().collect();
+		rep.xrefs.retain(|v| !(v.prop == "C01" && v.key.starts_with("self-wait|")));
+		for mut v in moved {
+			v.key = format!("hold-never-released:{}", v.key);
+			v.prop = "C05".into();
+			rep.violation(v);
+		}
 		if tier == "thorough" {
 			run_into(&mut rep, "N+panic", fam::with_panics(&fam::fam_pairs_of(&fam::nested_specs(), "N", Body::TOUCH, &FLAVOURS)), &cfg);
 		}
@@ -270,6 +279,8 @@ pub fn check_c09(tier: &str) -> ! {
 	let fr = run_family_with("R", &progs, &cfg, Some(&c09_hook));
 	eprintln!("  family R programs={} states={} transitions={} execs={} contended={} completions={} found={} [{:.1}s]", fr.programs, fr.stats.states, fr.stats.transitions, fr.stats.executions, fr.contended_programs, fr.stats.completions, fr.found.len(), t.elapsed().as_secs_f64());
 	absorb(&mut rep, &progs, &cfg, fr);
+	// the back-off also when a raw operation panics in the middle of it: what was taken so far is still given back
+	crate::faults::retry_fault_sweep(&mut rep);
 	// the back-off also when its first member is killed (safe `RawLock::poison`) between acquisition and rollback
 	let kprogs = fam::fam_c09_kill();
 	let fr = run_family_with("R-kill", &kprogs, &cfg, Some(&c09_hook));
